@@ -225,6 +225,16 @@ fn parse_watch(v: Option<&Value>) -> Vec<(u32, u32)> {
     out
 }
 
+/// RAM-expansion overlays named in a configuration object: {"expand": [[start, size, name], ...]}
+fn add_expansions(rt: &mut CoreRuntime, cfg: &Value) -> Result<(), String> {
+    if let Some(list) = cfg.get("expand").and_then(|x| x.as_array()) {
+        for e in list {
+            rt.add_ram_overlay(u(e, 0)? as u32, u(e, 1)? as usize, s(e, 2)?);
+        }
+    }
+    Ok(())
+}
+
 fn machine(host: &mut Host, name: &str, op: &Value) -> Result<Option<Value>, String> {
     let slot = u(op, 1)?;
     match name {
@@ -241,6 +251,7 @@ fn machine(host: &mut Host, name: &str, op: &Value) -> Result<Option<Value>, Str
                 if cfg.get("pce500_map").and_then(|x| x.as_bool()) == Some(true) {
                     sc62015_core::pce500::configure_pce500_memory_map(&mut rt.memory);
                 }
+                add_expansions(&mut rt, cfg)?;
             }
             host.machines.insert(slot, rt);
             Ok(None)
@@ -433,6 +444,7 @@ fn machine(host: &mut Host, name: &str, op: &Value) -> Result<Option<Value>, Str
                     fresh.add_rom_overlay(addr, &data, &nm);
                 }
             }
+            add_expansions(&mut fresh, &cfg)?;
             let res = fresh.load_snapshot(std::path::Path::new(&path));
             let _ = std::fs::remove_file(&path);
             match res {
